@@ -66,6 +66,19 @@ theorem step_longest_first (modes : List ScanMode) (st : ScanSt) (w : List Nat) 
 theorem matchesRe_iff (r : Re) (w : List Nat) : matchesRe r w = true ↔ Matches r w :=
   ParolModel.matchesRe_iff r w
 
+/-- "the longest match … honouring positive/negative lookahead": the match length of a terminal is
+    the greatest `n ≥ 1` such that the first `n` characters are in the language of its regex and its
+    lookahead condition holds for the rest of the input (never the empty match). -/
+theorem term_match_is_longest (t : ScanTerm) (w : List Nat) (n : Nat) (h : t.matchLenSpec w = some n) :
+    1 ≤ n ∧ n ≤ w.length ∧ matchesRe t.re (w.take n) = true ∧ laHolds t.la (w.drop n) = true ∧
+    ∀ m, n < m → m ≤ w.length → ¬ (matchesRe t.re (w.take m) = true ∧ laHolds t.la (w.drop m) = true) :=
+  matchLenSpec_some t w n h
+
+/-- A terminal has no match at a position only if no non-empty prefix qualifies. -/
+theorem term_no_match (t : ScanTerm) (w : List Nat) (h : t.matchLenSpec w = none) :
+    ∀ j, 1 ≤ j → j ≤ w.length → ¬ (matchesRe t.re (w.take j) = true ∧ laHolds t.la (w.drop j) = true) :=
+  matchLenSpec_none t w h
+
 /-- "pop on an empty stack keeps the state". -/
 theorem pop_empty_keeps (m : Nat) : applyModeOp ⟨m, []⟩ (some .pop) = ⟨m, []⟩ := rfl
 
